@@ -135,7 +135,7 @@ def r14b(chk, rid='R14.b'):
 
 
 def r14c(chk, rid='R14.c'):
-    chk.rule(rid, 'derived macro environment: every branch of a mutator that removes raw profiles also recomputes _usedMacros (by _resetProperties when the removed profile had macros, or by resetting to the built-in macros), so that a later profile cannot use macros of a profile that is gone; _resetProperties rebuilds the environment from the built-ins plus the remaining raw profiles')
+    chk.rule(rid, 'derived macro environment: every branch of a mutator that removes raw profiles also recomputes _usedMacros (by _resetProperties when the removed profile had macros, or by resetting to the built-in macros), so that a later profile cannot use macros of a profile that is gone (what _resetProperties and addProfile compute is decided by evaluation in R14.h)')
     fn = chk.repo.fn(P, 'Profiles.removeProfile')
     m = chk.repo.mod(P)
     allb = [n for n in fn.body if isinstance(n, ast.If) and text(n.test) == 'all']
@@ -168,8 +168,6 @@ def r14c(chk, rid='R14.c'):
     resets = '_usedMacros' in wall_
     chk.ob(rid, P, 'Profiles.removeProfile', 'removing all profiles resets the macro environment', clears and resets,
            'the macros of the removed profiles stay usable: add a profile with macro foo, remove all, add a profile that uses {foo} without defining it - accepted, while a fresh registry raises KeyError')
-    other = ast.unparse(ast.Module(body=allb[0].orelse, type_ignores=[]))
-    chk.ob(rid, P, 'Profiles.removeProfile', 'removing one profile with macros re-expands the rest', "self._rawProfiles[profile]['macros']" in other and 'self._resetProperties()' in other, '', shape=True)
     # the re-expansion must depend on nothing but "the removed profile had macros"
     resets = [c for c in ast.walk(allb[0].orelse[0] if allb[0].orelse else fn) if False]
     ctrl = []
@@ -222,11 +220,6 @@ def r14c(chk, rid='R14.c'):
                 chk.ob(rid, P, q, f'`{text(c)[:60]}`', False, 'the macro environment is derived state: removing single entries cannot restore a macro that the removed one was shadowing - it has to be recomputed from the raw profiles')
             if isinstance(c, ast.Delete) and any('self._usedMacros' in text(t) for t in c.targets):
                 chk.ob(rid, P, q, f'`{text(c)[:60]}`', False, 'the macro environment is derived state and must be recomputed, not patched')
-    rp = ast.unparse(chk.repo.fn(P, 'Profiles._resetProperties'))
-    ok = 'macros = Profiles._TOKEN_MACROS.copy()' in rp and 'macros.update(Profiles._MACROS.copy())' in rp and "macros.update(self._rawProfiles[profile]['macros'])" in rp and 'self._usedMacros = macros' in rp and 'self._profilesProperties.clear()' in rp
-    chk.ob(rid, P, 'Profiles._resetProperties', 'environment = built-in macros + macros of the remaining profiles; all tables re-expanded from the raw patterns', ok, 'history leaks into the environment', shape=True)
-    ap = ast.unparse(chk.repo.fn(P, 'Profiles.addProfile'))
-    chk.ob(rid, P, 'Profiles.addProfile', 'a profile that redefines a known macro re-expands everything', 'self._resetProperties(newMacros=macros)' in ap and "'properties': properties.copy()" in ap and "'macros': macros.copy()" in ap, '', shape=True)
 
 
 def r14d(chk, rid='R14.d'):
